@@ -139,6 +139,14 @@ func c15Body(tier string) func(x *engine.X) {
 			vs.Feed(sg)
 		}
 		ws := newWS(x, vs, c15Max)
+		// "at every position in a session" includes the stretch after the client has sent its own Close and is
+		// still reading until the peer's Close arrives: violations there are reported just the same (only the
+		// 1002 Close is not sent, the client has said its last word)
+		closedFirst := x.Deviate(2, "the client has started the closing handshake before it reads") == 1
+		if closedFirst {
+			x.Guard("ws.Close/panic", func() { ws.Close(websocket.CloseNormal, "") })
+			x.Note("client Close sent first; state %s", ws.State())
+		}
 		var d delivered
 		x.Guard("ws.read/violation/panic", func() {
 			d = readAll(x, ws, vs, api, deferred, len(s.frames)+len(s.msgs)+3, 4*c15Max)
@@ -173,6 +181,23 @@ func c15Body(tier string) func(x *engine.X) {
 			if len(d.msgs) != len(wantMsgs) {
 				x.Fail("ws.violation/message-before-violation", "%s at frame %d: %d messages delivered before the error, %d complete messages precede it", mu.name, pos, len(d.msgs), len(wantMsgs))
 			}
+		}
+		if closedFirst {
+			vs.DeferWrite = nil
+			vs.DeferRead = nil
+			vs.StepWrite()
+			x.Guard("ws.Flush/panic", func() { ws.Flush() })
+			out, _, _ := wsref.ParseAll(vs.Out, 1<<20)
+			closes := 0
+			for _, p := range out {
+				if p.Op == wsref.OpClose {
+					closes++
+				}
+			}
+			if closes != 1 {
+				x.Fail("ws.violation/close-count-after-local-close", "the client closed first, then met %s: %d Close frames on the wire", mu.name, closes)
+			}
+			return
 		}
 		if mu.class == "framing" && d.err != nil {
 			vs.DeferWrite = nil
